@@ -32,6 +32,7 @@ def run(ctx):
     ctx.guard(rule_b, ctx, ix)
     ctx.guard(rule_c, ctx, ix)
     ctx.guard(rule_d, ctx, ix)
+    ctx.guard(rule_e, ctx, ix)
 
 
 def _concrete(f):
@@ -222,3 +223,18 @@ def rule_d(ctx, ix):
     rs = [c for c in calls_in(f.node) if call_name(c) == 'reshape']
     ctx.ob(R, f.construct, 'the points are flattened and the answers reshaped back', (len(flat) == 2 or n > 0) and len(rs) >= 1,
            detail='points_inside_poly no longer reshapes its answers back to the shape of the points', where=f.where)
+
+
+XY_EXCEPTIONS = {
+    'np.array([self.xmin, self.xmax, self.xmax, self.xmin, self.xmin]) | np.array([self.ymin, self.ymin, self.ymax, self.ymax, self.ymin])':
+        'the four corners in order: x alternates min,max,max,min while y alternates min,min,max,max',
+    'np.array([-1, 1, 1, -1, -1]) * self.width() / 2 | np.array([-1, -1, 1, 1, -1]) * self.height() / 2':
+        'the four corners in order (signs of the half-width / half-height)',
+}
+
+
+def rule_e(ctx, ix):
+    """Sibling cross-check: whatever a region does with its x-coordinates it does with its y-coordinates."""
+    R = 'C08.e'
+    ctx.describe(R, 'paired x / y expressions of the region classes agree up to the renaming x -> y', floor=50)
+    common.check_xy_symmetry(ctx, R, ix.module('glue.core.roi'), XY_EXCEPTIONS, floor=50)
